@@ -134,6 +134,39 @@ EvStep ==
                           ELSE bad
                 /\ cov' = Bump(cov, "REJECTED")
 
+\* a Step that panicked or hung: never a behaviour of the specification (C12)
+EvPanic ==
+  /\ IsEv("x") /\ UNCHANGED c
+  /\ bad' = IF Len(bad) < MaxBad
+            THEN Append(bad, [line |-> l, asp |-> {"panic"}, tag |-> Ev.what, pc |-> 0, f |-> 0, u |-> 0]) ELSE bad
+  /\ cov' = Bump(cov, "REJECTED")
+
+\* C11: the FD form run from the IX/IY-exchanged state mirrors the DD form, with an
+\* identical access sequence; neither form reads or writes the other index register
+SwapIdx(a) == [i \in 1 .. 27 |-> CASE i = 17 -> a[19] [] i = 18 -> a[20] [] i = 19 -> a[17] [] i = 20 -> a[18]
+                                    [] OTHER -> a[i]]
+MirrorOK(dd, fd) ==
+  /\ fd.pre = SwapIdx(dd.pre) /\ fd.post = SwapIdx(dd.post) /\ fd.h = dd.h
+  /\ fd.rd = dd.rd /\ fd.wr = dd.wr /\ fd.pio = dd.pio
+\* x2 = the same run with the other index register (positions i1, i2) changed
+NoInterf(x, x2, i1, i2) ==
+  /\ x2.post[i1] = x2.pre[i1] /\ x2.post[i2] = x2.pre[i2]
+  /\ x.post[i1] = x.pre[i1] /\ x.post[i2] = x.pre[i2]
+  /\ \A i \in 1 .. 27 : i \notin {i1, i2} => x2.post[i] = x.post[i]
+  /\ x2.h = x.h /\ x2.rd = x.rd /\ x2.wr = x.wr /\ x2.pio = x.pio
+EvMirror ==
+  /\ IsEv("m") /\ UNCHANGED c
+  /\ LET \* a pair whose instruction reads its own prefix byte as data legitimately differs
+         \* in that byte ("apart from the prefix byte itself"): not comparable
+         selfRead == Count(Ev.dd.rd, Ev.dd.pre[22]) > 1 \/ Count(Ev.fd.rd, Ev.fd.pre[22]) > 1
+         asp == (IF selfRead \/ MirrorOK(Ev.dd, Ev.fd) THEN {} ELSE {"mirror"})
+                \cup (IF NoInterf(Ev.dd, Ev.dd2, 19, 20) /\ NoInterf(Ev.fd, Ev.fd2, 17, 18) THEN {} ELSE {"interf"})
+     IN IF asp = {} THEN bad' = bad /\ cov' = Bump(cov, "MIRROR pair")
+        ELSE /\ bad' = IF Len(bad) < MaxBad
+                       THEN Append(bad, [line |-> l, asp |-> asp, tag |-> "MIRROR pair", pc |-> 0, f |-> 0, u |-> 0])
+                       ELSE bad
+             /\ cov' = Bump(cov, "REJECTED")
+
 EvRaise == IsEv("q") /\ c' = [c EXCEPT !.pend = PendOf(Ev.pend)] /\ UNCHANGED <<bad, cov>>
 
 EvPoke == IsEv("p") /\ c' = [c EXCEPT !.m = Overlay(Ev.cells, @)] /\ UNCHANGED <<bad, cov>>
@@ -143,7 +176,7 @@ Done ==
   /\ PrintT(<<"TRACE-RESULT", ToJson([consumed |-> l - 1, bad |-> bad, cov |-> cov])>>)
   /\ done' = TRUE /\ UNCHANGED <<l, c, bad, cov>>
 
-TraceNext == EvInit \/ EvStep \/ EvRaise \/ EvPoke \/ Done
+TraceNext == EvInit \/ EvStep \/ EvRaise \/ EvPoke \/ EvPanic \/ EvMirror \/ Done
 TraceSpec == TraceInit /\ [][TraceNext]_vars
 
 \* every line was consumed (a line no action can take would stop the run early)
